@@ -101,7 +101,7 @@ class History:
         rec['exc'] = exc
 
 
-def gen_program(tape, phase):
+def gen_program(tape, phase, special):
     """Programs for the concurrent phase: <=2 processes x <=2 threads, <=3 ops each."""
     first = tape.draw(len(POOL), 'pool.first')
     chosen = [first]
@@ -115,10 +115,14 @@ def gen_program(tape, phase):
             break
         chosen.append(src[tape.draw(len(src), 'pool.pick')])
     nproc = 1 + tape.draw(2, 'nproc')
-    focus = tape.draw(5, 'focus')        # 4: log-heavy program (interleaved appends)
+    focus = tape.draw(5, 'focus')        # 4: log-heavy program; 3: everybody works on one key
+    if focus == 3:
+        # hot key: transactions and readers of one entry (biased to one that carries results)
+        hot = [e['idx'] for e in POOL if e['has_results']]
+        first = hot[tape.draw(len(hot), 'hot.model')] if tape.draw(3, 'hot.results') else first
+        chosen = [first]
     threads = []
     uid = [0]
-    special = {}       # 'input'/'final' -> model idx (bound to one content only)
     for p in range(nproc):
         nthr = 1 + tape.draw(2, 'nthr')
         for t in range(nthr):
@@ -132,6 +136,9 @@ def gen_program(tape, phase):
                 uid[0] += 1
                 if focus == 4 and tape.draw(10, 'focus.log') < 7:
                     kind = 'log'
+                if focus == 3:
+                    kind = tape.weighted([(4, 'store'), (3, 'metadata'), (2, 'localfile'), (7, 'retrieve'),
+                                          (1, 'store_input')], 'hot.op')
                 if kind in ('store_input', 'store_final'):
                     nm = 'input' if kind == 'store_input' else 'final'
                     m = special.setdefault(nm, m)
@@ -174,13 +181,14 @@ def run_one(cfg, tape, want_trace=False):
     nphases = 1 + (1 if cfg.get('fault') in ('death', 'mix') else tape.draw(2, 'phases'))
     pid_base = 0
     traces = []
+    special = {}       # 'input'/'final' -> model idx: bound to one content for the whole run
     dbmod, ctxmod = base._P['dbmod'], base._P['ctxmod']
     saved_locks = (dbmod.path_lock, ctxmod.path_lock)
     # the context directory is created fault-free (context creation is not a store)
     base.quiet(base._P['Ctx']('ctx', ref=root))
     try:
         for phase in range(nphases):
-            prog = gen_program(tape, phase)
+            prog = gen_program(tape, phase, special)
             for m in prog['models']:
                 if m not in all_models:
                     all_models.append(m)
